@@ -73,7 +73,9 @@ LOOKALIKES = ('"quoted"', "\\073", '\\"', "a\\", '"', '""', "\\\\", "\\1", "\\01
               "expires=Thu, 01 Jan 1970 00:00:00 GMT", "\xe9", "caf\xe9 \xfc", "=", "==", ";", ",", "\\054x", "'",
               "%3B", "a;max-age=0", "x\r\nSet-Cookie: evil=1")
 PADDED = (" ", "  ", " x", "x ", " x ", "\tx", "x\t", " a b ", "\xa0x\xa0", "\x1fx\x1f")
-EXPIRES = (3600, 1, 59, 60, 86400, 1800, 7 * 86400, 31536000, 315360000, 0, -1, -86400, 4 * 3600 + 1)
+EXPIRES = (3600, 1, 59, 60, 86400, 1800, 7 * 86400, 31536000, 315360000, 0, -1, -86400, 4 * 3600 + 1,
+           # seconds from now, however many: beyond thirty years, beyond 2**31
+           946080001, 10 ** 9, 2 ** 31 - 1, 2 ** 31 + 5)
 MAX_AGES = (3600, 0, 1, 59, 86400, 31536000, 2 ** 31 - 1, 2 ** 31)
 JUMPS = (0, 1, 59, 3600, 86400, -3600, ("dst", -1), ("dst", 1), ("dst", -1800), ("dst", 3600))
 FRACS = (0.0, 0.25, 0.5, 0.999999)
